@@ -662,7 +662,10 @@ def run(rep, tier):
         # sibling site in SkipScanner::GetOnDemand must satisfy the same contract
         c11_entry.check(facts, rep, fam, only='GetOnDemand')
         ownership(facts, rep)
-        merge_skeleton(facts, rep)
+        try:
+            merge_skeleton(facts, rep)
+        except AnalysisBroken as ex:
+            rep.broken.append(str(ex))      # the explorations below still run
         # each lazily parsed slice is scanned by a fresh Parser: the scanner's white-space cache is per buffer (shared with C02 clause f)
         from . import c02
         c02.clause_f(facts, rep)
@@ -695,6 +698,11 @@ def run(rep, tier):
             scaneval.clause(get_facts(cfg6), rep, tier)
         except AnalysisBroken as ex:
             rep.broken.append(str(ex))
+    # the shape rules on UpdateNodeLazy are decided together with the exploration that interprets it on the DOM model
+    for r_ in ('E2.merge-decision', 'E2.merge-loop', 'E2.merge-complete'):
+        rep.corroborate(r_, 'E6.lazy-merge')
+    for pre_ in ('C20: unexpected branch', 'C20: decision entry', 'C20: replacement statement', 'C20: merge-skeleton', 'C20: iterator step', 'C20: UpdateNodeLazy parameters'):
+        rep.corroborate_floor(pre_, 'E6.lazy-merge')
     rep.trust('clang 14 front end', 'zone analysis and callee summaries of C11', 'contract of parseStringInplace: scans to the first unescaped quote with VEC_LEN-byte block loads')
     rep.assumptions += [
         'decides only the clause "keys are matched by their decoded value" (private decode buffer contains the closing quote, has VEC_LEN-1 slack, ownership flag, error exit)',
